@@ -1245,6 +1245,11 @@ func stateHash(s State) string {
 }
 
 func run(c *vlib.Ctx) {
+	defer func() {
+		if r := recover(); r != nil { // a bug of the machinery must never look like a finding or kill the report
+			c.HarnessError(fmt.Sprintf("explorer panicked: %v\n%s", r, debug.Stack()))
+		}
+	}()
 	hs := histories(c.Tier)
 	scratch := vlib.Scratch("c02-")
 	defer os.RemoveAll(scratch)
@@ -1440,7 +1445,7 @@ func run(c *vlib.Ctx) {
 				res = clause
 			}
 			c.Outcome(fmt.Sprintf("%s/inflight=%s/seen=%s:%s", im.Desc.Kind, opKind(infl), seen, res))
-			c.Extra("cuts_with_file_class_in_flight"+fileClass(im.NextClass), 1)
+			c.Extra("cuts_by_file_class_in_flight:"+fileClass(im.NextClass), 1)
 			if clause != "" {
 				cutDesc := fmt.Sprintf("%v: %s %s", im.Desc, im.NextOp, im.NextPath)
 				sig := vlib.JoinSig(clause, "Engine.Open", "file="+fileClass(im.NextClass), "cut="+im.Desc.Kind, "inflight="+opKind(infl))
